@@ -198,6 +198,11 @@ fn drain_closed<T>(rx: std::sync::mpsc::Receiver<T>, cap_s: u64) -> Option<Vec<T
 
 /// results of the analyzer's own parallel mode on a capture file; Ok(None) = inconclusive (result channel never closed)
 pub fn api_parallel(kind: PoolKind, frames: &[Vec<u8>], max_conn: usize, workers: usize, queue: usize, batch: usize, timeout_ms: u64) -> Result<Option<Vec<(String, String)>>, String> {
+    api_parallel_filtered(kind, frames, None, max_conn, workers, queue, batch, timeout_ms)
+}
+#[allow(clippy::too_many_arguments)]
+pub fn api_parallel_filtered(kind: PoolKind, frames: &[Vec<u8>], filter: Option<&crate::props::c14::FilterSpec>, max_conn: usize, workers: usize, queue: usize, batch: usize, timeout_ms: u64) -> Result<Option<Vec<(String, String)>>, String> {
+    use crate::props::c14;
     let path = drive::scratch_file("c10api");
     let refs: Vec<&[u8]> = frames.iter().map(|f| f.as_slice()).collect();
     drive::write_pcap(&path, &refs);
@@ -206,6 +211,9 @@ pub fn api_parallel(kind: PoolKind, frames: &[Vec<u8>], max_conn: usize, workers
         PoolKind::Tcp => {
             let (tx, rx) = std::sync::mpsc::channel();
             let mut a = huginn_net_tcp::HuginnNetTcp::with_config(Some(crate::props::c15::arc_db()), max_conn, workers, queue, batch, timeout_ms).map_err(|e| e.to_string())?;
+            if let Some(f) = filter {
+                a = a.with_filter(c14::tcp_cfg(f));
+            }
             a.init_pool(tx.clone()).map_err(|e| e.to_string())?;
             a.analyze_pcap(&p, tx, None).map_err(|e| e.to_string())?;
             drop(a);
@@ -214,6 +222,9 @@ pub fn api_parallel(kind: PoolKind, frames: &[Vec<u8>], max_conn: usize, workers
         PoolKind::Http => {
             let (tx, rx) = std::sync::mpsc::channel();
             let mut a = huginn_net_http::HuginnNetHttp::with_config(Some(crate::props::c15::arc_db()), max_conn, workers, queue, batch, timeout_ms).map_err(|e| e.to_string())?;
+            if let Some(f) = filter {
+                a = a.with_filter(c14::http_cfg(f));
+            }
             a.init_pool(tx.clone()).map_err(|e| e.to_string())?;
             a.analyze_pcap(&p, tx, None).map_err(|e| e.to_string())?;
             drop(a);
@@ -222,6 +233,9 @@ pub fn api_parallel(kind: PoolKind, frames: &[Vec<u8>], max_conn: usize, workers
         PoolKind::Tls => {
             let (tx, rx) = std::sync::mpsc::channel();
             let mut a = huginn_net_tls::HuginnNetTls::with_config_and_max_connections(workers, queue, batch, timeout_ms, max_conn);
+            if let Some(f) = filter {
+                a = a.with_filter(c14::tls_cfg(f));
+            }
             a.init_pool(tx.clone()).map_err(|e| e.to_string())?;
             a.analyze_pcap(&p, tx, None).map_err(|e| e.to_string())?;
             drop(a);
